@@ -118,7 +118,7 @@ Proof.
   apply chunking_first in Hch. destruct Hch as (w & ws' & a & -> & Hr & Hw & Hws & Hcat).
   destruct (ixfr_records_perm false v0 chain z0 mid Hok Hz HS) as (s1 & s2 & Hl & Hd1 & Hf & Hd2 & Hz2).
   pose proof Hok as (_ & _ & _ & Hser & Hlt).
-  unfold inbound_xfr, xfr_run. rewrite init_ixfr. cbn [Z.eqb tIXFR Pos.eqb]. rewrite drive_cons.
+  unfold inbound_xfr, xfr_run. rewrite init_ixfr. cbn [Z.eqb tIXFR Pos.eqb]. rewrite drive_cons by solve_req.
   rewrite (first_message_ixfr z0 (v_serial v0) false w (soa_rr (last chain v0)) a Hw Hr) by (split; reflexivity).
   cbv zeta. change (r_data (soa_rr (last chain v0)) mod two32) with (v_serial (last chain v0)).
   assert (Hne : (v_serial (last chain v0) =? v_serial v0) = false).
@@ -138,7 +138,7 @@ Theorem axfr_converges_any_order : forall v z0 ser recs ws,
 Proof.
   intros v z0 ser recs ws Hv [B [PB ->]] Hch.
   apply chunking_first in Hch. destruct Hch as (w & ws' & a & -> & Hr & Hw & Hws & Hcat).
-  unfold inbound_xfr, xfr_run. rewrite init_axfr. cbn [Z.eqb tAXFR tIXFR Pos.eqb]. rewrite drive_cons.
+  unfold inbound_xfr, xfr_run. rewrite init_axfr. cbn [Z.eqb tAXFR tIXFR Pos.eqb]. rewrite drive_cons by solve_req.
   rewrite (first_message_axfr z0 ser w (soa_rr v) a Hw Hr) by (split; reflexivity).
   pose proof Hv as [Httl Hwf].
   assert (PlB : Forall plain B).
@@ -173,7 +173,7 @@ Proof.
     apply (proj2 (PB (mkRR n cIN ty cv t d))). unfold body. cbn [flat_map]. apply in_or_app. left.
     cbn. left. reflexivity. }
   inversion PlB as [|? ? Hpr Hpc]; subst.
-  unfold inbound_xfr, xfr_run. rewrite init_ixfr. cbn [Z.eqb tIXFR Pos.eqb]. rewrite drive_cons.
+  unfold inbound_xfr, xfr_run. rewrite init_ixfr. cbn [Z.eqb tIXFR Pos.eqb]. rewrite drive_cons by solve_req.
   rewrite (first_message_ixfr z0 ser false w (soa_rr v) a Hw Hr) by (split; reflexivity).
   cbv zeta. change (r_data (soa_rr v) mod two32) with (v_serial v).
   apply Z.eqb_neq in Hs. rewrite Hs, Hlt. cbn [andb]. rewrite after_tcp by reflexivity.
